@@ -450,7 +450,7 @@ static void variant_struct(uint64_t off, uint64_t& idx)
     VS_lp32_p16 g{};
     g.a = 0x01020304;
     g.c = 'q';
-    g.p = 0;
+    g.p = 0x4100;
     g.ll = 0x1122334455667788LL;
     g.arr[0] = 1;
     g.arr[1] = 2;
@@ -464,6 +464,10 @@ static void variant_struct(uint64_t off, uint64_t& idx)
     if (!in_history(offsetof(VS_lp32_p16, ll), 8, (i128)s.ll.UNSAFE_unverified())) vd.problems.push_back("value-never-held: field ll");
     for (int i = 0; i < 3; i++)
       if (!in_history(offsetof(VS_lp32_p16, arr) + 2 * i, 2, (i128)s.arr[i].UNSAFE_unverified())) vd.problems.push_back("value-never-held: field arr[" + std::to_string(i) + "]");
+    // the pointer field of the copy designates what a representation the cell held designates IN THIS SANDBOX
+    uintptr_t a = reinterpret_cast<uintptr_t>(s.p.UNSAFE_unverified());
+    if (a != 0 && !(a >= g_base && a - g_base < kSize)) vd.problems.push_back("pointer-field-not-from-sandbox: field p of the copy points outside the sandbox");
+    else if (!in_history(offsetof(VS_lp32_p16, p), 2, a ? (i128)(a - g_base) : 0)) vd.problems.push_back("value-never-held: field p");
   };
   // the adversary never plants pointer representations here (flip of p/fn fields is excluded by using mutations on a/ll only)
   Variant body = [=](Verdict& vd) {
